@@ -129,6 +129,73 @@ def _const_eval(e, env):
     return 'UNK'
 
 
+def check_zip_axis(ctx, fn, where, rule='R-ZIPAXIS'):
+    """zipped selection: the new dimension goes where the first list-selected axis of *the variable* was.  The position therefore has
+    to be derived from a sequence in the order of the variable's dimensions; one derived from the selector dict follows the order in
+    which the caller happened to write the keywords."""
+    ctx.rule(rule, "zipped selection: the position of the new dimension is derived in the order of the variable's dimensions, not of the keywords")
+    defs = [st for st in iter_stmts(fn.body) if isinstance(st, ast.Assign) and isinstance(st.targets[0], ast.Name) and st.targets[0].id == 'concatax']
+    if not defs:
+        ctx.undec(rule, 'concatax', where, 'position of the new dimension (concatax) not found')
+        return
+    st = defs[0]
+    # the variable's dimension tuple: the name the per-dimension classification iterates
+    seen, work, gens = set(), [st.value], []
+    while work:
+        e = work.pop()
+        for n_ in ast.walk(e):
+            if isinstance(n_, ast.comprehension):
+                gens.append(n_)
+            if isinstance(n_, ast.Name) and isinstance(n_.ctx, ast.Load) and n_.id not in seen:
+                seen.add(n_.id)
+                for d_ in iter_stmts(fn.body):
+                    if isinstance(d_, ast.Assign) and isinstance(d_.targets[0], ast.Name) and d_.targets[0].id == n_.id and d_.lineno < st.lineno \
+                            and isinstance(d_.value, (ast.ListComp, ast.GeneratorExp, ast.Call, ast.Subscript)):
+                        work.append(d_.value)
+    keyorder = [g for g in gens if any(isinstance(c, ast.Call) and isinstance(c.func, ast.Attribute) and c.func.attr in ('items', 'keys') for c in ast.walk(g.iter))
+                or (isinstance(g.iter, ast.Name) and g.iter.id in ('isarray', 'kwds', 'dimslices'))]
+    dimorder = [g for g in gens if isinstance(g.iter, ast.Name) and 'dims' in g.iter.id or '.dimensions' in norm(g.iter)]
+    if keyorder:
+        ctx.violation(Finding(rule, RP, Q, st, 'the position of the new dimension is computed from %s, whose order is that of the keywords in the call: sliceDimensions(lat=[..], time=[..]) on a '
+                              '(time, lev, lat, lon) variable puts the new dimension where lat was instead of where time was' % norm(keyorder[0].iter)))
+    elif dimorder:
+        ctx.ok(rule, 'concatax', where, "derived from %s in the order of the variable's dimensions" % norm(dimorder[0].iter))
+    else:
+        ctx.undec(rule, 'concatax', where, 'derivation of %s not traced' % norm(st.value)[:50])
+
+
+def check_fill_lookup(ctx, rule='R-FILLLOOK'):
+    """copyVariable finds the fill value of the source among fill_value / missing_value / _FillValue.  A masked array carries
+    fill_value as a plain python attribute, not as a declared netCDF attribute: the lookup has to be by attribute access; restricting
+    it to ncattrs() creates a plain output variable for a masked source and the copy writes the data under the mask."""
+    from .. import paths as _paths
+    ctx.rule(rule, 'copyVariable: the fill value of the source is looked up by attribute access, not only among its declared netCDF attributes')
+    fm = ctx.src.mod(RP)
+    cv = fm.func('PseudoNetCDFFile.copyVariable')
+    where = 'src/PseudoNetCDF/%s PseudoNetCDFFile.copyVariable' % RP
+    loops = [l_ for l_ in ast.walk(cv) if isinstance(l_, ast.For) and isinstance(l_.iter, (ast.Tuple, ast.List)) and any(const_str(e) == 'fill_value' for e in l_.iter.elts)]
+    if not loops:
+        ctx.undec(rule, 'lookup', where, 'lookup loop over the fill attribute names not found')
+        return
+    lp = loops[0]
+    bad, n = None, 0
+    for pth in _paths.enumerate_paths(lp.body, limit=2000):
+        stores = [st for st in pth.stmts if isinstance(st, ast.Assign) and norm(st.targets[0]) == 'fill_value']
+        if not stores:
+            continue
+        n += 1
+        for it in pth.items:
+            if it[0] == 'cond' and it[2] is True and 'ncattrs' in norm(it[1]):
+                bad = bad or (it[1], stores[0])
+    if bad:
+        ctx.violation(Finding(rule, RP, 'PseudoNetCDFFile.copyVariable', bad[1], 'the fill value is taken only when %s: a masked source without a declared fill attribute (the result of a value mask, a '
+                              'variable built from a masked array) yields a plain output variable and its mask is lost in every slice/copy' % norm(bad[0])))
+    elif n:
+        ctx.ok(rule, 'lookup', where, '%d storing paths, none restricted to ncattrs()' % n)
+    else:
+        ctx.undec(rule, 'lookup', where, 'no path stores fill_value')
+
+
 def run(ctx):
     for r, d in (('R-ADVIDX', 'no subscript combines an arbitrary-length sequence with another numpy-advanced index'),
                  ('R-MASKKEEP', 'selected values reach the result variable without a mask-dropping conversion'),
@@ -141,6 +208,8 @@ def run(ctx):
     mod = ctx.src.mod(RP)
     fn = mod.func(Q)
     where = 'src/PseudoNetCDF/%s %s' % (RP, Q)
+    check_zip_axis(ctx, fn, where)
+    check_fill_lookup(ctx)
     # 1. the classification predicate
     isarr = None
     for st in iter_stmts(fn.body):
